@@ -33,7 +33,8 @@ def _mk_math():
         k = counter[0]
         if kind == "leaf":
             # values repeat on purpose (equal constants / equal variable names at different positions)
-            return E.ConstantExpression([4, 4.0, 2, 4][k % 4]) if k % 2 else E.VariableExpression("xyz"[k % 3])
+            # runs of two constants then two variables, so equal-valued constants (4 and 4.0) occur as siblings
+            return E.ConstantExpression([4, 4.0][k % 2]) if (k // 2) % 2 == 0 else E.VariableExpression("xyz"[k % 3])
         if kind == "both":
             return binaries[k % len(binaries)]()
         cls = unaries[k % len(unaries)]
